@@ -5,7 +5,8 @@ CONSTANTS
   MatEps <- Eps124
   PVals <- P012
   MaxHist = 3
-  Backup = "initial"
+  Backup = "any"
+  Scenes <- Single
 INVARIANT TypeOK
 INVARIANT DeviceCells
 INVARIANT Range
